@@ -128,6 +128,44 @@ def coq_check(prop):
     return ok, info
 
 
+def input_distribution(cases):
+    """what the generators produced, for the evidence: sizes, entries, options, segmentations, faults"""
+    import collections
+    def bucket(n):
+        for lim, name in ((0, "0"), (8, "1-8"), (64, "9-64"), (4096, "65-4096"), (65536, "4097-65536")):
+            if n <= lim:
+                return name
+        return ">65536"
+    sizes, entries, opts = collections.Counter(), collections.Counter(), collections.Counter()
+    nopts = collections.Counter()
+    seg = faults = invalid_utf8 = 0
+    for c in cases:
+        sizes[bucket(len(c.stdin))] += 1
+        entries[c.entry] += 1
+        k = 0
+        skip = False
+        for a in c.argv:
+            if skip:
+                skip = False
+                continue
+            if a.startswith(b"-") and len(a) > 1 and not a[1:2].isdigit():
+                name = a.split(b"=")[0].decode("utf-8", "replace")[:24]
+                opts[name] += 1
+                k += 1
+                skip = name in ("-f", "-c", "-b", "-l", "-d", "-r", "-t", "-e", "-M", "--fallback-oob") and b"=" not in a
+        nopts[min(k, 8)] += 1
+        seg += 1 if c.seg else 0
+        faults += 1 if c.extra else 0
+        try:
+            c.stdin.decode("utf-8")
+        except UnicodeDecodeError:
+            invalid_utf8 += 1
+    return {"cases": len(cases), "stdin_bytes": dict(sizes), "entries": dict(entries),
+            "options_per_case": {str(k): v for k, v in sorted(nopts.items())},
+            "option_frequency": dict(opts.most_common(40)), "with_segmentation": seg, "with_fault": faults,
+            "stdin_not_utf8": invalid_utf8}
+
+
 def count_lemmas(prop):
     """lemmas/theorems in the proof files the property file imports (for the evidence)"""
     n = 0
@@ -332,6 +370,7 @@ def main():
         "theorems": cinfo["theorems"],
         "axioms_reported": cinfo["axioms"] or ["Closed under the global context"],
         "extraction_rechecked_by_kernel": n_kernel,
+        "input_distribution": input_distribution(cases),
         "coqchk": cinfo.get("coqchk", "not run in the quick tier (thorough: coqchk -o on Properties/%s.vo and its dependencies)" % prop),
         "evaluations": len(cases),
         "distinct_nontrivial": len(nontrivial),
